@@ -28,6 +28,14 @@ PANIC_CALLS = {
     ("str", "split_at"): "range", ("std::cell::RefCell", "borrow"): "refcell", ("std::cell::RefCell", "borrow_mut"): "refcell",
     ("std::iter::Iterator", "step_by"): "nonzero",
 }
+# third-party APIs documented to panic on a precondition of their arguments (by trait / type and method)
+PRECONDITION_CALLS = {
+    ("rand::Rng", "gen_ratio"): "numerator <= denominator and denominator > 0",
+    ("rand::Rng", "gen_range"): "a non-empty range",
+    ("rand::Rng", "gen_bool"): "a probability within [0, 1]",
+    ("rand::seq::SliceRandom", "choose_multiple"): None,
+    ("std::time::Instant", "duration_since"): None,
+}
 EXPLICIT_PANIC_MACROS = ("m:panic", "m:unreachable", "m:assert", "m:assert_eq", "m:assert_ne", "m:todo", "m:unimplemented", "m:debug_assert")
 
 
@@ -109,6 +117,8 @@ def panic_sites(F):
                     kind = "index"
                 if kind is None and "panicking" in cal.def_path and t.get("t") is None:
                     kind = "explicit"
+                if kind is None and PRECONDITION_CALLS.get((cal.def_trait or cal.adt, cal.name)):
+                    kind = "precondition"
                 if kind is None:
                     continue
                 ops = [pv.operand(a) for a in t["args"]]
@@ -363,6 +373,22 @@ GUARDS = {
     "add": (g5_counter,),
     "sub": (g9_compare,),
 }
+
+
+def g19_const_precondition(site, tests):
+    """gen_ratio(n, d) / gen_bool(p) with constant arguments that satisfy the documented precondition"""
+    if site.kind != "precondition":
+        return None
+    name = site.what.rsplit("::", 1)[1]
+    a = [x for x in site.ops[1:]]
+    if name == "gen_ratio" and len(a) == 2 and all(_c is not None for _c in (_const_int(a[0]), _const_int(a[1]))):
+        n_, d_ = _const_int(a[0]), _const_int(a[1])
+        if d_ > 0 and 0 <= n_ <= d_:
+            return "G19: constant ratio %d/%d" % (n_, d_)
+    return None
+
+
+GUARDS["precondition"] = (g19_const_precondition,)
 
 
 def discharge(site, tests_cache, extra=()):
